@@ -51,7 +51,7 @@ Theorem finish_complete :
   denotes nbk parse minimal fs (c_remote c) fact_remote_on_empty_minimal r ->
   lib_merge nbk dec dif strat diffnb decide apply (c_strat c) b l r = Some (m, ds) ->
   exists s', run nbk dec dif strat parse minimal diffnb decide apply dconflict serialise dec_chunks None c fs
-               = (Exit (returncode dec dconflict ds), s')
+               = (Exit (Nat.modulo (returncode dec dconflict ds) 256), s')
              /\ out_complete nbk strat serialise c fs s' m.
 Proof. exact MergeAppProofs.finish_complete. Qed.
 Print Assumptions finish_complete.
